@@ -710,6 +710,65 @@ def ctor_misuse(types, res, seed):
     res.nontrivial += len(types)
 
 
+def chains(t, vmode, pname, opts, res, seed, pairs):
+    """Refusals as a history: a refused operation leaves every value as it was, so the next misuse meets the same state -
+    and must be refused as cleanly, whatever the first refusal left behind in the library's own books.  One world is built
+    per first misuse m1 (quick tier: the first, the last and every misuse that is a whole update; thorough tier: every
+    misuse), m1 is applied, then EVERY misuse of the menu is applied in that same world one after the other, each judged
+    like a first one (raises, victim and neighbours read back unchanged).  A chain stops at its first violation."""
+    v0 = xt.gen(t, vmode)
+    try:
+        sb = hist.build(t, v0, pname, [], seed)
+        if not xt.veq(xt.read(t, sb.h), v0):
+            return
+    except Exception:
+        return  # (counted as skipped by the exploration above)
+    menu = misuse_menu(sb, dict(opts, prefix=0), 0)
+    if len(menu) < 2:
+        return
+    firsts = [i for i, ev in enumerate(menu) if pairs or i in (0, len(menu) - 1) or ev[0] not in ("x-index",)]
+    for i1 in firsts:
+        s = hist.build(t, v0, pname, [], seed)
+        try:
+            with common.Watchdog(30):
+                apply_misuse(s, menu[i1])
+        except BaseException:
+            pass
+        else:
+            continue  # accepted: reported by the exploration above, nothing to chain
+        done = [i1]
+        for i2, ev in enumerate(menu):
+            viols, _ = judge(s, ev, res)
+            res.transitions += 1
+            res.events["chain:" + ev[0]] += 1
+            done.append(i2)
+            if viols:
+                # is the pair (m1, m2) alone enough?  (smallest replay first)
+                try:
+                    s2 = hist.build(t, v0, pname, [], seed)
+                    try:
+                        apply_misuse(s2, menu[i1])
+                    except BaseException:
+                        pass
+                    v2, _ = judge(s2, ev, common.ShardResult())
+                    if v2:
+                        done, viols = [i1, i2], v2
+                except BaseException:
+                    pass
+                for vl in viols:
+                    vl["oracle"] = vl["oracle"]
+                    vl["failure"] = vl["failure"] + ":after-refusals"
+                    vl["case"] = common.jsonable(dict(type=t, type_str=xt.show(t), vmode=vmode, place=pname, chain_idx=done, seed=seed,
+                                                      first_refused=hist.ev_json(menu[i1]), event=hist.ev_json(ev)))
+                    f = cons.feats(t, vmode, "py", pname)
+                    f["depth"] = len(done)
+                    f["after_refusals"] = True
+                    vl["features"] = common.jsonable(f)
+                    res.violations.append(vl)
+                break
+        res.oracles["chains"] += 1
+
+
 def run_shard(shard, tier, seed):
     res = common.ShardResult()
     if shard[0] == "ctor":
@@ -718,6 +777,7 @@ def run_shard(shard, tier, seed):
     _, t, vmode, pname = shard
     opts = dict(prefix=0 if tier == "quick" else 1, max_arrays=4 if tier == "quick" else 8, deep_leaves=4)
     seen = hist.explore(t, vmode, pname, opts["prefix"] + 1, opts, judge, res, seed, menu=misuse_menu)
+    chains(t, vmode, pname, opts, res, seed, pairs=(tier != "quick"))
     for v in res.violations:
         v["features"].update(v.pop("extra_features", {}))
     if seen:
@@ -728,10 +788,31 @@ def run_shard(shard, tier, seed):
 
 
 def replay(case):
-    if "ev_idx" not in case:
+    if "ev_idx" not in case and "chain_idx" not in case:
         res = common.ShardResult()
         ctor_misuse([xt.retuple(case["type"])], res, 0)
         return res.violations
+    if "chain_idx" in case:
+        t = xt.retuple(case["type"])
+        v0 = xt.gen(t, case["vmode"])
+        for ma in (4, 8):
+            opts = dict(prefix=0, max_arrays=ma, deep_leaves=4)
+            s = hist.build(t, v0, case["place"], [], case.get("seed", 0))
+            menu = misuse_menu(s, opts, 0)
+            idx = case["chain_idx"]
+            if max(idx) >= len(menu) or hist.ev_json(menu[idx[-1]]) != case["event"]:
+                continue
+            res = common.ShardResult()
+            for i in idx[:-1]:
+                try:
+                    apply_misuse(s, menu[i])
+                except BaseException:
+                    pass
+            viols, _ = judge(s, menu[idx[-1]], res)
+            for vl in viols:
+                vl["failure"] += ":after-refusals"
+            return viols
+        return []
     for prefix in (0, 1):
         opts = dict(prefix=prefix, max_arrays=8, deep_leaves=4)
         if len(case["hist_idx"]) == prefix:
